@@ -266,7 +266,36 @@ def execute(plan):
         hist = W.run()
         S = W.sched
         if S.aborted and S.aborted.startswith('step cap'):
-            raise RuntimeError('step cap reached: ' + S.aborted)
+            # bounded liveness: with every request delivered and no fault
+            # pending, the sessions did not finish within the step budget
+            # (a run needs 5-10 % of it). If the same requests complete
+            # when served one at a time, the concurrent run made no
+            # progress: a violation; otherwise the workload itself is too
+            # large for the budget: a harness error.
+            try:
+                w2 = world.World(plan['actors'], plan.get('policies'),
+                                 seed=plan['seed'])
+                try:
+                    for ai, sc in enumerate(plan['scripts']):
+                        for rq in sc:
+                            r2 = dict(rq)
+                            r2['actor'] = ai
+                            r2.pop('mut', None)
+                            w2.request(r2, record=False)
+                finally:
+                    w2.close()
+            except Exception as e:
+                raise RuntimeError('step cap reached: %s (sequential run '
+                                   'failed too: %r)' % (S.aborted, e))
+            W.close()
+            return {'violations': [{
+                'sig': {'oracle': 'no-progress', 'why': 'step cap'},
+                'detail': {'aborted': S.aborted, 'steps': S.steps,
+                           'tasks': [(t.name, t.state, t.points)
+                                     for t in S.tasks]}}],
+                'nontrivial': False, 'key': 'stepcap', 'digest': 'stepcap',
+                'faults': {}, 'probes': probes, 'sim_s': 0.0,
+                'steps': S.steps, 'sample': {'kind': 'step cap'}}
         dump_c = W.dump()
         own = owners(W.db)
         task_errors = [(t.name, t.error) for t in S.tasks if t.error]
